@@ -272,6 +272,13 @@ func (w *World) pxPredicate(fn *ssa.Function, hi int) (ISet, bool) {
 	if len(fn.Params) != 1 {
 		return nil, false
 	}
+	return w.pxPredicateCtx(fn, 0, hi, nil)
+}
+
+// pxPredicateCtx: the predicate's truth set over 0..hi of parameter #idx with
+// the other parameters fixed to the constants in fixed (flow_enum.go: a
+// predicate specialised by the constant operands of one call site).
+func (w *World) pxPredicateCtx(fn *ssa.Function, idx int, hi int, fixed Env) (ISet, bool) {
 	var acc ISet
 	for v := 0; v <= hi; v++ {
 		res, seen, bad := false, false, false
@@ -319,7 +326,11 @@ func (w *World) pxPredicate(fn *ssa.Function, hi int) (ISet, bool) {
 				res, seen = r, true
 			},
 		})
-		px.Run(fn, Env{"<p:" + fn.Params[0].Name() + ">": single(int64(v))})
+		env := Env{"<p:" + fn.Params[idx].Name() + ">": single(int64(v))}
+		for k, c := range fixed {
+			env[k] = c
+		}
+		px.Run(fn, env)
 		if bad || !seen || px.Truncated {
 			return nil, false
 		}
